@@ -386,6 +386,10 @@ class TransactionManager(Elaboratable):
         # remove orderings between simultaneous methods/transactions
         # TODO: can it be done after transitivity, possibly catching more cases?
         for elem in method_map.methods_and_transactions:
+            if not method_map.transactions_for(elem):
+                # an uncalled method is never merged with its simultaneous partners (e.g. the branches of a
+                # `condition` inside it), so they must stay ready dependent on it
+                continue
             all_sims = frozenset(elem.simultaneous_list)
             elem.relations = list(
                 filterfalse(
